@@ -96,6 +96,7 @@ def run(rep):
     n = 500 if quick else 20000
     cases = [readcore.gen_core_case(r, faults=(i % 3 == 0)) for i in range(n)]
     cases += [readcore.gen_boundary_case(r) for _ in range(200 if quick else 5000)]
+    cases += [readcore.gen_seekskip_case(r, faults=(i % 2 == 0)) for i in range(40 if quick else 800)]
     st = vlib.correspond(rep, "readCore", runner, core, vlib.load_corpus("C01") + cases, oracle=readcore.core_oracle_c01)
 
     # ---- choose_filters bound: k nested uuencode layers through the real reader vs the model
